@@ -80,7 +80,8 @@ def py_oracle(path):
                     for ns in r.get("nodes", []):
                         if ns["id"] == n:
                             post = ns
-                    if is_learner(pre) and is_learner(post):
+                    # a rejection is no vote (Step rejects a stale-term pre-vote before looking at the role)
+                    if is_learner(pre) and is_learner(post) and not mb["msg"].get("reject"):
                         out.append(("C01", "learner-vote-response", seq, "node %s" % n))
         if ev["k"] in ("crash", "restart"):
             pending.pop(n, None)
